@@ -9,6 +9,14 @@ NOTE = ('Trusted: Lean 4.33 kernel; axioms within {propext, Classical.choice, Qu
         'Python generators/oracles; 64-bit usize.')
 
 CLAIMS = {
+ 'C01': dict(category='proof', technique='Lean 4 closure proofs (Clean = never panic / never Failure) for every modelled entry point, induction over all defragmenter histories; termination by Lean\'s termination checker; heap/format/abort measured on the implementation',
+   text='PARTIAL by nature. Proved on the model: X_clean / X_noPanic for 81 parsing entry points (the model produces panic exactly where the Rust can panic: slice indexing, checked arithmetic, expect; the theorems say the guards suffice), recordsParser_noPanic for every operation sequence, and totality of every model function (many0/many1 recursion accepted on the strength of nom\'s progress check). Measured on the implementation (not provable on any executable model): every op on empty/short/garbage/lying-length/cap-sized inputs and all generated families under catch_unwind with overflow-checks and debug-assertions on, Debug/Display of every returned value, peak heap against a fixed linear bound (+10 MiB for the defragmenter), process death.',
+   design_ref='DESIGN.md section 6 C01',
+   note='PARTIAL: heap use, formatting and hangs are runtime behaviour the Lean model cannot exhibit; they are measured by the harness (counting allocator, catch_unwind, fmt of every value). ' + NOTE),
+ 'C06': dict(category='proof', technique='Lean 4 closure proofs: Suffix and Stable for every listed self-delimiting parser (confinement lemma: map_parser(take n, Q) is stable whatever Q is), framed stability, alias for primitives and raw records + suffix/alias correspondence on pointer offsets',
+   text='Theorems X_suffix / X_stable for TLS and DTLS record parsers, handshake messages (TLS and DTLS), the three extension dispatchers, SCT and SCT list, DH / EC / ECDH parameters and both DigitallySigned forms: on success appending bytes leaves the value unchanged and extends the remainder, a non-Incomplete failure stays the same; plaintext_framed / dtlsRecord_framed / handshake_framed / extension_framed: with the declared length present this holds whatever the outcome (even an Incomplete from inside the confined content); take_alias / lengthData_alias / rawRecord_alias. Tie: each self-delimiting op re-run with suffixes on well-formed and corrupted inputs; pointer offsets of every slice of every returned value (harness) compared with the spans of the model run on position-tagged bytes; defragmenter slices classified through the hook.',
+   design_ref='DESIGN.md section 6 C06',
+   note='Alias (zero-copy) is a theorem for the slice-producing primitives and raw records only; for composite values it is established span by span by the correspondence check (implementation pointer offsets = model positions). ' + NOTE),
  'C11': dict(category='proof', technique='Lean 4 corollaries of the round-trip theorems, one per enumerated field and universally quantified over the field domain + exhaustive per-field value sweeps with exact expectations',
    text='One theorem per field named by the property (record type/version, alert level/description, heartbeat type, ClientHello version / cipher ids / compression ids, ServerHello cipher/compression, HelloRetryRequest version, KeyUpdate, certificate-status type, certificate types and sig/hash algs of CertificateRequest, extension type, named groups, signature algorithms, DigitallySigned algorithms, SNI name type, status_request type, PSK modes, EC point formats, EC named group, CT version): for every value of the domain the parsed structure carries that value. Tie: 33 field sweeps over the whole domain (thorough) or a dense sample (quick) with hand-written exact expected output, on the implementation and the model.',
    design_ref='DESIGN.md section 6 C11'),
